@@ -639,7 +639,8 @@ func TestVerif_C02_Hist(t *testing.T) {
 		p := genPlan(rt)
 		dir, err := os.MkdirTemp("", "c02-")
 		if err != nil {
-			rt.Skip("tempdir")
+			vr.Label("inconclusive:tempdir")
+			return
 		}
 		defer os.RemoveAll(dir)
 		// diagnostics only: if a case is stuck for 150 s, leave the goroutine stacks behind
